@@ -308,6 +308,8 @@ def rebase_note_lines_beyond_file(trace, viol):
         return False
     if viol.get("class") == "lists_absent_path" and (viol.get("detail") or {}).get("commit_touches_offending_path", False):
         return False      # (only: a file that a LATER commit of the range creates, carried into an earlier commit's note)
+    if (viol.get("detail") or {}).get("shortcut_taken"):
+        return False      # the note was copied by the shortcut, not derived by the replay path
     av = _step_argv(trace, viol)
     st = viol.get("step")
     ops = _ops(trace)
